@@ -16,7 +16,7 @@ Functions followed (src/helper.cc unless noted), branch by branch:
 * `Helper::Reply::finalize` (src/helper/Reply.cc): the result-code recognition as far as it decides `result == BrokenHelper`
   (needed for the retry branch; a retried Xaction reuses its Reply object, so an unrecognised code keeps the stale BH).
 
-`Cfg.popOnlyWhenComplete` / `Cfg.dropUnterminated` / `Cfg.nulCloses` select the behaviour of the places where candidate repairs
+`Cfg.popOnlyWhenComplete` / `Cfg.dropUnterminated` / `Cfg.nulCloses` / `Cfg.wideChannelId` select the behaviour of the places where candidate repairs
 (notes/fixes/C47-*.diff) change the code; the values that describe the staged tree are dumped into
 `SquidModel/Gen/HelperRead.lean` by translate/helper_read.py.  All `false` is the pinned tree.
 
@@ -37,6 +37,8 @@ structure Cfg where
   dropUnterminated : Bool
   /-- repair 2: a read containing a NUL octet closes the session instead of tripping the final assertion -/
   nulCloses : Bool
+  /-- repair 3: the channel id is kept as a 64-bit number (`strtoll`, `popRequest(int64_t)`) instead of being truncated to `int` -/
+  wideChannelId : Bool
 deriving Repr, DecidableEq
 
 /-- `Helper::Xaction` as far as dispatch is concerned -/
@@ -89,21 +91,25 @@ def clampLong (neg : Bool) (v : Nat) : Int :=
   if neg then (if v > 9223372036854775808 then -9223372036854775808 else -(v : Int))
   else (if v > 9223372036854775807 then 9223372036854775807 else (v : Int))
 
-/-- `i = strtol(s, &e, 10)` on the C string `s` (no NUL inside): the `int` value and `e - s`.
+/-- the value stored in `i`: `int i = strtol(..)` truncates, the repaired `int64_t i = strtoll(..)` does not -/
+def chanVal (wide : Bool) (neg : Bool) (v : Nat) : Int :=
+  if wide then clampLong neg v else wrap32 (clampLong neg v)
+
+/-- `i = strtol(s, &e, 10)` on the C string `s` (no NUL inside): the value of `i` and `e - s`.
 No digits ⇒ value 0 and `e = s`. -/
-def strtol (s : Bytes) : Int × Nat :=
+def strtol (wide : Bool) (s : Bytes) : Int × Nat :=
   let ws := s.takeWhile isSpace
   let s1 := s.dropWhile isSpace
   match s1 with
   | 45 :: t =>
     let ds := t.takeWhile isDigit
-    if ds.isEmpty then (0, 0) else (wrap32 (clampLong true (digitsVal ds 0)), ws.length + 1 + ds.length)
+    if ds.isEmpty then (0, 0) else (chanVal wide true (digitsVal ds 0), ws.length + 1 + ds.length)
   | 43 :: t =>
     let ds := t.takeWhile isDigit
-    if ds.isEmpty then (0, 0) else (wrap32 (clampLong false (digitsVal ds 0)), ws.length + 1 + ds.length)
+    if ds.isEmpty then (0, 0) else (chanVal wide false (digitsVal ds 0), ws.length + 1 + ds.length)
   | _ =>
     let ds := s1.takeWhile isDigit
-    if ds.isEmpty then (0, 0) else (wrap32 (clampLong false (digitsVal ds 0)), ws.length + ds.length)
+    if ds.isEmpty then (0, 0) else (chanVal wide false (digitsVal ds 0), ws.length + ds.length)
 
 /-- `Helper::Session::popRequest(i)`: the request handed out (if any) and the remaining `requests` -/
 def popRequest (cfg : Cfg) (reqs : List Req) (i : Int) : Option Req × List Req :=
@@ -203,7 +209,7 @@ def iter (cfg : Cfg) (st : St) (rest : Bytes) : Step :=
     let after := rest.drop (q + 1)
     if !st.ignoreToEom && st.cur.isNone then
       if cfg.concurrency > 0 then
-        let (i, off) := strtol line
+        let (i, off) := strtol cfg.wideChannelId line
         -- `*e` is a space, or `e == eom`
         let terminated := off == line.length || isSpace (line.getD off 0)
         if terminated then
@@ -232,7 +238,7 @@ def iter (cfg : Cfg) (st : St) (rest : Bytes) : Step :=
     -- no end of message in the buffer
     if !st.ignoreToEom && st.cur.isNone then
       if cfg.concurrency > 0 then
-        let (i, off) := strtol vis
+        let (i, off) := strtol cfg.wideChannelId vis
         let terminated := isSpace (vis.getD off 0)
         if terminated then
           let bodyOff := off + ((vis.drop off).takeWhile isSpace).length
@@ -273,7 +279,7 @@ def handleRead (cfg : Cfg) (st : St) (chunk : Bytes) : St :=
     let buf := st.rbuf ++ chunk
     if cfg.nulCloses && chunk.contains 0 then { st with rbuf := [], closed := true }   -- repaired: NUL octet from the helper
     else if st.pending == 0 then { st with rbuf := [], closed := true }   -- someone spoke without being spoken to
-    else loop cfg (buf.length + 1) st buf
+    else loop cfg (buf.length + 1) { st with rbuf := [] } buf    -- (the loop ends by storing what stays in `rbuf`)
 
 /-- a fresh session whose `nextRequestId` is `base` -/
 def initial (base : Nat) : St := { nextId := base }
